@@ -8,7 +8,7 @@ from vlib.printer import close
 ID = "C08"
 BUDGET = {"quick": 2000, "thorough": 20000}
 RULE = ("Hypothesis draws an abstract tool path (12-40 ops: moves to 0.5 mm grid points / region interiors, Z changes, extrusions, "
-        "E-only retract/recover cycles), 1-3 regions whose borders are at least 0.1 mm away from every grid destination, a cut "
+        "E-only retract/recover cycles, I/J arcs of 1-3 quarter turns about grid centres), 1-3 regions whose borders are at least 0.1 mm away from every grid destination, a cut "
         "index k and a re-encoding: inches from k (9 decimals), relative positioning from k, G92 X Y Z re-basing at k with all "
         "later coordinates shifted, or translation of path and regions by a grid vector. Base (mm, absolute) and variant are run "
         "separately; the base run is the oracle. Non-trivial = at least one command at or after the cut is suppressed (the frame "
@@ -27,8 +27,20 @@ def cases(draw):
     regions = [draw(gen.region(k, False)) for k in range(nreg)]
     rnd = gen.Renderer({}, regions, gen.profile(), 0.508, False, False)
     ops = []
+    xf = draw(st.sampled_from(["inch", "relative", "rebase", "translate"]))
     for _ in range(draw(st.integers(12, 40))):
-        k = draw(st.sampled_from(["in", "in", "grid", "grid", "grid", "z", "ret", "e"]))
+        k = draw(st.sampled_from(["in", "in", "grid", "grid", "grid", "z", "ret", "e", "arc"]))
+        if k == "arc" and xf == "inch":
+            # arcs are sampled once per *logical* unit (C16): in inches an arc reaching 2 mm into a region is below the sampling
+            # resolution, in millimetres it is not - the statement's quantifier (moves, Z changes, extrusions, cycles) has no arcs
+            k = "grid"
+        if k == "arc":
+            # I/J arc of 1-3 quarter turns about a centre on the 0.5 mm grid (so the end point is a grid point too)
+            di, dj = draw(st.integers(-12, 12)) * 0.5, draw(st.integers(-12, 12)) * 0.5
+            if not (di or dj):
+                di = 2.5
+            ops.append(["arc", di, dj, draw(st.integers(1, 3)), draw(st.booleans())])
+            continue
         if k in ("in", "grid"):
             tx, ty = rnd.target(k, draw(st.integers(0, 5)), draw(st.integers(0, 120)), draw(st.integers(0, 120)))
             tx, ty = round(tx * 2) / 2.0, round(ty * 2) / 2.0
@@ -39,7 +51,6 @@ def cases(draw):
             ops.append(["ret"])
         else:
             ops.append(["e", draw(st.sampled_from([1, 2, 5]))])
-    xf = draw(st.sampled_from(["inch", "relative", "rebase", "translate"]))
     cut = draw(st.integers(0, len(ops) - 1))
     par = [draw(st.integers(-10, 30)) * 0.5, draw(st.integers(-10, 30)) * 0.5, draw(st.sampled_from([0.0, 1.0, 2.5]))]
     moves = [o for o in ops if o[0] == "mv" and o[1] is not None]
@@ -119,6 +130,15 @@ def render(case, variant):  # noqa: C901  pylint: disable=too-many-branches,too-
                 w += " E" + gen.fmt(e / u, nd)
             prog.append((idx, "G1" + w))
             x, y, z = nx, ny, nz
+        elif op[0] == "arc":
+            _, di, dj, q, cw = op
+            vx, vy = -di, -dj
+            for _ in range(q):
+                vx, vy = (vy, -vx) if cw else (-vy, vx)
+            nx, ny = x + di + vx, y + dj + vy
+            w = word("X", x + dx, nx + dx, shift[0]) + word("Y", y + dy, ny + dy, shift[1]) + " I%s J%s" % (num(di / u), num(dj / u))
+            prog.append((idx, ("G2" if cw else "G3") + w))
+            x, y = nx, ny
         elif op[0] == "ret":
             e += 0.508 if retracted else -0.508
             retracted = not retracted
@@ -175,6 +195,13 @@ def run_case(case, strict=False):
         if v is None:
             out.append({"tag": "c08_exception", "at": idx, "msg": "variant run stopped before op %d (%s)" % (idx, [i.exception for i in trv.items if i.exception])})
             break
+        if b.u_step is not None and b.u_step.arc is not None:
+            cl.add("arc")
+            if core.classify_arc(case["regions"], b.u_step.arc, 1e-6) == geom.EDGE:
+                # an arc that grazes a region (less than the sampling resolution inside): its decision is not determined by the
+                # statement (and may legitimately differ with the float noise of a re-encoding); nothing after it is compared
+                cl.add("truncated_at_grazing_arc")
+                break
         kb, kv = kind(b), kind(v)
         if kb != kv:
             out.append({"tag": "c08_decision", "at": idx, "msg": "op %d: base %r -> %s %r, %s variant %r -> %s %r" % (idx, b.cmd, kb, b.out, case["xf"], v.cmd, kv, v.out)})
